@@ -60,6 +60,54 @@ CLAIMS = {
         "technique": "Lean 4 proof (fold invariant over generations/records/entries) + scenario differential + independent packing-list monitor",
         "design_ref": "7 C18",
     },
+    "C03": {
+        "text": "Theorems for every tree, history (flat or nested, any number of generations) and ignore predicate, once the history loads: the exit codes of the current source (10,11,12,20,21,30-33, pairwise distinct); complete characterisation of how verify / diff / create end (11 over 21 over 20 over 10; 10 over 21; 11 over 10 over 30); a file is judged mismatch iff it has an original entry whose digest differs from the file's, new iff it has none; every reported mismatch / new / missing path is genuine (no false report) and every visible mismatching or unrecorded file and every expected, unvisited, non-ignored path is reported with the stated exit code (completeness); a clean tree exits 0; a path with an ignored component is reported nowhere. Tie: seal-then-mutate scenarios with harness-side ground truth (alter/append/truncate, delete files and empty directories, add files, touch mtimes, edit ignored files; flat and nested, several generations, path spellings) on implementation and model; monitor: exit code and reported path sets against the ground truth.",
+        "note": "'Unchanged since sealed' refers to folder-mode create. " + COMMON_NOTE,
+        "technique": "Lean 4 proof (decision logic stated outright + membership characterisations over the shared traversal) + mutation scenarios with ground truth + differential",
+        "design_ref": "7 C03",
+    },
+    "C05": {
+        "text": "Theorems: the chain check passes iff every chain entry resolves to an intact manifest; with a clean prefix the first damaged entry decides (31 modified, 33 missing/unknown); a missing chain file of an existing ascmhl folder gives 32; loading fails iff some history in the tree (any depth) is damaged, and the error is that of the first damaged store in walk order (a history before its nested ones, siblings by name - independent of the stored order); if loading fails, create, create -sf, verify, verify -dh, diff, flatten, info, info -sf all end with that error, an empty report and NOTHING written. Tie/monitor: for (nested) multi-generation histories x edit kinds {bit flip at first/last/random position, insert, delete, truncate, empty, appended newline, removal, chain removal; mtime preserved or not} x all eight command forms: exit code and byte snapshot of the whole tree before/after, flatten destination absent.",
+        "note": "The detection hypothesis is the specific state 'bytes differ from what the chain entry hashed' (symbolic in the model: a manifest is ok / modified / missing); that differing bytes give a differing C4 is observed on the implementation, not assumed globally. " + COMMON_NOTE,
+        "technique": "Lean 4 proof (first-fault lemma over the chain fold and the sorted walk) + fault-injection differential + snapshot monitor",
+        "design_ref": "7 C05",
+    },
+    "C09": {
+        "text": "Theorems: verify -dh never ends with an internal error (its result is 0, 12 or the refusal code of loading) on any input; a format is marked failed iff a recorded entry in a computed format differs in content or structure hash; exit 12 iff every computed format failed; the computed formats are exactly the formats occurring in recorded root hashes; if the root hash of the tree differs from what every generation recorded (in every recorded format) the exit is 12 - including changes directly in the root folder (the former defect); if nothing fails the exit is 0. The false wording 'some generation has a root hash' is refuted by a witness (a root hash without entries) and replaced by 'with at least one entry'. Tie/monitor: sealed trees (flat folders without sub-directories, nested histories in other formats, -n generations, several generations) with one mutation at any depth (content, rename, add, remove, empty directories) or none: expected 12 / 0, never an exception.",
+        "note": "That a changed tree has a different root hash rests on the digest inequalities made explicit in C07; the scenarios use contents whose digests differ (observed). " + COMMON_NOTE,
+        "technique": "Lean 4 proof (fold invariant over the traversal, decision logic) + mutation scenarios + differential",
+        "design_ref": "7 C09",
+    },
+    "C13": {
+        "text": "Theorems for trees with distinct sibling names related by any permutation of any directory listing at any depth: the traversal yields EQUAL visit lists (children sorted by code-point order), path look-ups agree, loading the (nested) histories gives the same result including which error is reported, and verify, diff, verify -dh, create (folder and -sf mode, full outcome including every written generation), flatten and info give EQUAL outcomes; counterexamples show distinct names are needed. The model has no access to the absolute location at all: every path it handles is relative to the command root (the repaired code matches patterns against root-relative paths). Tie/monitor: the same scenario sealed at two absolute locations (parents named ascmhl / matching a user pattern / with spaces; trailing slash, dot segments, relative invocation, cwd invocation) and under seeded permutations of os.listdir/os.walk: byte comparison of all ascmhl folders; a sealed tree copied elsewhere verifies as at the original place.",
+        "note": "Mount independence is structural in the model (no absolute path exists in it) and carried by the tie; listing independence is a theorem. " + COMMON_NOTE,
+        "technique": "Lean 4 proof (permutation invariance through sorted-permutation uniqueness, congruence over all commands) + two-location / permuted-listing differential on the implementation",
+        "design_ref": "7 C13",
+    },
+    "C14": {
+        "text": "Theorems: verify (all modes), diff and verify -dh return no written generation on any input and exit path; if loading fails create writes nothing; everything create writes comes from one successful commit and belongs to a history of the loaded tree (all or nothing); flatten returns at most one manifest that is placed outside the tree. Tie/monitor (this property is carried by the tie): Python audit events (open for writing, mkdir, rename/replace, remove, rmdir, utime, chmod, truncate, shutil.*) recorded around every command of every scenario must lie inside the ascmhl folders of the histories that wrote (create) / below the destination (flatten) / be absent (read-only commands, also on trees without history); full snapshot (type, bytes, mode, mtime) before/after; no leftover files; media files never change content, size, mode or mtime.",
+        "note": "Partial by nature: a theorem about the model says nothing about a stray write in code the model does not mention; the audit/snapshot monitor is what decides. " + COMMON_NOTE,
+        "technique": "Lean 4 proof (outcome shape) + audit-hook and snapshot monitor over all scenario commands",
+        "design_ref": "7 C14",
+    },
+    "C16": {
+        "text": "Theorems about CPython's naive-local-time resolution as written (fromtimestamp fold detection, local_to_seconds) over arbitrary offset functions: in a constant zone and in any zone with one transition the round trip mktime(fromtimestamp(t)) = t holds for ALL instants iff the offset drops by at most the 24 h probe window (exact condition, with witnesses beyond it); hence the printed value denotes the file's instant and carries the offset in force at that instant, independent of 'now'; the former formatter is off by exactly z(t) - z(now) and right iff both lie on the same side of the switch; the fold bit is set exactly in the second pass of a repeated interval and dropping it yields the first pass; the offset text has the shape [+-]hh:mm for whole-minute offsets and is injective; the size attribute is present for every length (0 included) and injective. Tie/monitor: datetime_isostring through the real libc path under 12-17 zones (IANA and POSIX rule strings, half-hour and 45-minute offsets, both hemispheres) at every 2026 transition -2h..+2h (both passes, both sides of gaps) vs an independent ISO parser and zoneinfo; model vs implementation on the same zone tables; whole create runs: size, lastmodificationdate, hashdate, creationdate, UTC file name.",
+        "note": "Rendering of the civil fields (year..second) by datetime.isoformat and libc's zone data are trusted and exercised, not proved. " + COMMON_NOTE,
+        "technique": "Lean 4 proof (integer arithmetic over offset functions, omega) + zone-table differential + independent ISO parser monitor",
+        "design_ref": "7 C16",
+    },
+    "C17": {
+        "text": "Theorems: one generation step of the expected-path computation (drop the previous paths of the generation's renamed records, add its record paths); a path renamed away in some generation and not recorded again later is not expected, whatever came before (the former defect: a->b then b->c expects only c); the recorded-name look-up steps back to the previous path exactly under stated side conditions; no duplicates; rename detection only ever takes paths off the given missing list and does nothing without new paths. Tie/monitor: rename scenarios (renames in place, moves into existing and new directories, 1-3 rename generations, unrelated new files, format changes, -n) with pairwise distinct contents: create -dr exits 0, records each moved file under its new path with its former path, reports none missing; afterwards verify/diff/create accept the tree, verify fails when a renamed file was also changed; without -dr missing (10).",
+        "note": "The rename-detection double loop itself is modelled as written and tied by the differential; its full functional correctness is not a theorem. " + COMMON_NOTE,
+        "technique": "Lean 4 proof (fold lemmas over generations) + rename scenarios differential + independent previousPath monitor",
+        "design_ref": "7 C17",
+    },
+    "C19": {
+        "text": "Theorems: info fails with 30 exactly when the loaded history has no generation; its lines are the history's own generations in ascending order followed by every nested history in pre-order, exactly one line per (history, generation); info -sf prints, generation by generation, exactly the entries of the record the tool's look-up finds for the path (count and content). Tie/monitor: stdout of info / info -sf (with and without explicit root: upward search for the nearest history) parsed into tuples vs the manifests read independently, creation dates included; no-history cases.",
+        "note": COMMON_NOTE,
+        "technique": "Lean 4 proof (structural recursion over the history tree) + output differential + independent manifest monitor",
+        "design_ref": "7 C19",
+    },
 }
 
 
